@@ -19,7 +19,7 @@ def fresh_world(crates=('compiler', 'common_defs', 'diagnostics')):
     W = ms.World.__new__(ms.World)
     W.__dict__.update(base.__dict__)
     W.res_cache = dict(base.res_cache); W.const_vals = {}; W.solver = z3.Solver(); W.queries = 0; W.solver_time = 0.0
-    W.bodies_run = set(); W.models_used = set(); W.steps_total = 0; W.model_cache = {}; W.overrides = []
+    W.bodies_run = set(); W.models_used = set(); W.steps_total = 0; W.model_cache = {}; W.overrides = []; W.stubs = {}; W.hash_order = 'insertion'
     return W
 
 def account(r, W, results=None, complete=True):
